@@ -41,7 +41,28 @@ fn content(r: &mut Rng, class: &str, to: Fmt, max_docs: usize) -> (Fmt, Vec<u8>)
 			}
 			(f, b)
 		}
-		"undetectable" => (Fmt::Json, (*r.pick(&[&b"\x01\x02\x03"[..], b"plain words only", b"\xc1", b"= = =", b"\"unterminated", b"\xff\xfe\xfd"])).to_vec()),
+		"undetectable" => {
+			if r.chance(1, 2) {
+				return (Fmt::Json, (*r.pick(&[&b"\x01\x02\x03"[..], b"plain words only", b"\xc1", b"= = =", b"\"unterminated", b"\xff\xfe\xfd"])).to_vec());
+			}
+			// Free text (a YAML scalar at best): lines of 10-120 bytes mixing ASCII words with
+			// 2-, 3- and 4-byte characters at every alignment.
+			let mut s = String::from("w");
+			let target = r.range(10, 120);
+			while s.len() < target {
+				match r.below(6) {
+					0 => s.push(' '),
+					1 => s.push_str(*r.pick(&["\u{e9}", "\u{df}", "\u{7ff}"])),
+					2 => s.push_str(*r.pick(&["\u{65e5}", "\u{672c}", "\u{20ac}"])),
+					3 => s.push_str(*r.pick(&["\u{1F600}", "\u{10348}"])),
+					_ => s.push((b'a' + r.below(26) as u8) as char),
+				}
+			}
+			if r.chance(1, 2) {
+				s.push_str("\nsecond line");
+			}
+			(Fmt::Json, s.into_bytes())
+		}
 		"unrepresentable" => {
 			// a value the target refuses
 			match to {
@@ -193,7 +214,7 @@ pub static C13: PropDef = PropDef {
 	gen: gen13,
 	eval: eval13,
 	shrink,
-	rule: "run = one spawn of the real binary (debug or release) under the interposer. The first run indices enumerate EVERY argument vector of <= 2 tokens over the vocabulary {-f/-t x every valid name and alias in attached/detached/'=' form, missing option values, invalid names (also empty and prefixes of valid names), unknown short/long options, -h, --help, -V, --version, --, -, existing/missing/directory paths}; later indices sample vectors of up to 6 tokens. Input files hold translatable, malformed, undetectable or target-unrepresentable content; stdout is a file, or (interposer) a terminal; inputs may be unreadable (EIO at byte k) or unmappable. Non-trivial: the vector has >= 2 tokens or an environment fault (tty, read failure, nommap) fired. Distinct = distinct (argv, file contents, plan).",
+	rule: "run = one spawn of the real binary (debug or release) under the interposer. The first run indices enumerate EVERY argument vector of <= 2 tokens over the vocabulary (79 tokens) {-f/-t x every valid name and alias in attached/detached/'=' form, missing option values, invalid names (also empty and prefixes of valid names), unknown short/long options, -h, --help, -V, --version, --, -, existing/missing/directory paths}; later indices sample vectors of up to 6 tokens. Input files hold translatable, malformed, undetectable or target-unrepresentable content; stdout is a file, or (interposer) a terminal; inputs may be unreadable (EIO at byte k) or unmappable. Non-trivial: the vector has >= 2 tokens or an environment fault (tty, read failure, nommap) fired. Distinct = distinct (argv, file contents, plan).",
 	real: PROC_REAL,
 	stub: PROC_STUB,
 	assumptions: &["reference model of the command line: 60 lines following lexopt's documented conventions; vectors in which a help/version request and an invalid token both occur accept exit 0 or 2 (the statement does not order them)", "per-input expectations come from the library (same supply mode as the CLI would use)"],
@@ -218,7 +239,7 @@ fn vocab() -> Vec<String> {
 		}
 		v.push(format!("-{flag}="));
 	}
-	for w in ["json", "y", "xml", "-h", "--help", "-V", "--version", "--", "-", "-x", "--bogus", "-hV", "-Vx", "ok.json", "ok.yaml", "bad.json", "missing.json", "dir", "noext", "-z9"] {
+	for w in ["json", "y", "xml", "-h", "--help", "-V", "--version", "--", "-", "-x", "--bogus", "-hV", "-Vx", "ok.json", "ok.yaml", "bad.json", "missing.json", "dir", "noext", "und", "-z9"] {
 		v.push(w.to_owned());
 	}
 	v
@@ -238,8 +259,9 @@ fn std_files(r: &mut Rng, to: Fmt) -> Vec<FileSpec> {
 		}
 	};
 	let noext = content(r, "translatable", to, 1).1;
+	let und = content(r, "undetectable", to, 1).1;
 	let mk = |name: &str, kind: &str, bytes: Vec<u8>| FileSpec { name: name.to_owned(), kind: kind.to_owned(), bytes, plan: Some(ReadPlan::default()) };
-	vec![mk("ok.json", "file", ok_json), mk("ok.yaml", "file", ok_yaml), mk("bad.json", "file", b"{\"a\": [1, 2,, ]}".to_vec()), mk("missing.json", "missing", vec![]), mk("dir", "dir", vec![]), mk("noext", "file", noext), mk("json", "file", b"[1]".to_vec()), mk("y", "file", b"- 1\n".to_vec()), mk("xml", "file", b"<a/>".to_vec())]
+	vec![mk("ok.json", "file", ok_json), mk("ok.yaml", "file", ok_yaml), mk("bad.json", "file", b"{\"a\": [1, 2,, ]}".to_vec()), mk("missing.json", "missing", vec![]), mk("dir", "dir", vec![]), mk("noext", "file", noext), mk("und", "file", und), mk("json", "file", b"[1]".to_vec()), mk("y", "file", b"- 1\n".to_vec()), mk("xml", "file", b"<a/>".to_vec())]
 }
 
 fn gen13(seed: u64, idx: u64, _t: Tier) -> J {
@@ -262,7 +284,7 @@ fn gen13(seed: u64, idx: u64, _t: Tier) -> J {
 		for _ in 0..len {
 			// bias towards well-formed runs
 			if r.chance(1, 2) {
-				args.push((*r.pick(&["ok.json", "ok.yaml", "noext", "-", "bad.json", "missing.json", "dir"])).to_owned());
+				args.push((*r.pick(&["ok.json", "ok.yaml", "noext", "-", "bad.json", "missing.json", "dir", "und"])).to_owned());
 			} else {
 				args.push(r.pick(&v).clone());
 			}
